@@ -58,7 +58,7 @@ def _read_line(s, i, lenient):
 
 def _chunk_ext_ok(ext, lenient):
     """ext = what follows the chunk-size up to the line end: *( BWS ";" BWS name [ BWS "=" BWS ( token / quoted-string ) ] )"""
-    ws = b" \t\x0b\x0c\r" if lenient else b" \t"
+    ws = b" \t\x0b\x0c\r" if lenient >= 2 else b" \t"      # level 2: see ref_read
     i, n = 0, len(ext)
 
     def bws(i):
@@ -113,7 +113,7 @@ def _read_chunked(s, i, lenient):
         k = 0
         while k < len(line) and line[k] in HEX:
             k += 1
-        if k == 0 or k > 16:
+        if k == 0:
             raise Invalid("chunk-size")
         if not _chunk_ext_ok(line[k:], lenient):
             raise Invalid("chunk-ext")
@@ -192,22 +192,27 @@ def _read_message(s, i, lenient):
         if c <= 0 or any(ch not in TCHAR for ch in line[:c]):
             raise Invalid("field-name")                # includes white space before the colon (RFC 9112 5.1: MUST reject)
         fields.append((line[:c].lower(), line[c + 1:]))
-    te = [_ows_strip(v) for n, v in fields if n == b"transfer-encoding"]
-    cl = [_ows_strip(v) for n, v in fields if n == b"content-length"]
+    ows = b" \t\x0b\x0c" if lenient >= 2 else b" \t"         # level 2: see ref_read
+    te = [_ows_strip(v, ows) for n, v in fields if n == b"transfer-encoding"]
+    cl = [_ows_strip(v, ows) for n, v in fields if n == b"content-length"]
     body = b""
     if te:
         if cl and not lenient:
             raise Invalid("Content-Length with Transfer-Encoding")
         if minor == 0 and not lenient:
             raise Invalid("Transfer-Encoding in HTTP/1.0")
-        codings = [c.strip(b" \t").lower() for v in te for c in v.split(b",") if c.strip(b" \t")]
+        codings = [c.strip(ows).lower() for v in te for c in v.split(b",") if c.strip(ows)]
         if not codings or codings[-1] != b"chunked" or codings.count(b"chunked") != 1 or \
            any(any(ch not in TCHAR for ch in c) for c in codings):
             raise Invalid("Transfer-Encoding not ending in a single chunked")
         body, i = _read_chunked(s, i, lenient)
     elif cl:
         if lenient:                                    # RFC 9112 6.3: identical values / a list of identical values
-            vals = [x.strip(b" \t") for v in cl for x in v.split(b",")]
+            vals = [x.strip(ows) for v in cl for x in v.split(b",")]
+            if any(b"," in v for v in cl):             # RFC 9110 5.6.1.2: a recipient ignores empty list elements
+                vals = [x for x in vals if x]
+            if not vals:
+                raise Invalid("Content-Length value")
         else:
             vals = cl
             if len(vals) != 1:
@@ -223,7 +228,10 @@ def _read_message(s, i, lenient):
 
 
 def ref_read(s, lenient):
-    """delimit the whole stream: (messages, how it ended: 'clean' | 'incomplete' | 'invalid:<why>')"""
+    """delimit the whole stream: (messages, how it ended: 'clean' | 'incomplete' | 'invalid:<why>').
+    lenient = 0: strict RFC 9112 reader; 1: the reader that takes every tolerance RFC 9112 offers; 2: level 1 plus VT and
+    FF read as optional white space around Content-Length / Transfer-Encoding values and in chunk-ext BWS — NOT an RFC
+    tolerance; used only to name the known finding C03-vt-ff-as-ows precisely."""
     out = []
     i = 0
     while i < len(s):
@@ -651,25 +659,13 @@ def target_path(t):
     return t
 
 
-def oracle(s, obs):
-    """The property on what squid did.  The client stream is delimited by a strict RFC 9112 reader and by a reader that
-    takes every tolerance RFC 9112 offers (a conservative extension of the strict one).  Every request the origin
-    received must be, in order, exactly the next message of that delimitation (same method, same target path, same
-    body bytes); its framing fields must be a single Content-Length equal to the body length or a lone
-    Transfer-Encoding: chunked; after an error answer by Squid nothing further may be forwarded or answered."""
-    p = parse_obs(obs)
-    if p is None:
-        return ("oracle:no-observation", "the exchange could not be observed: " + obs[:200])
-    items, codes, closed = p
-    data = stream_bytes(s, _state.get("oport", 80), RID0)
-    strict, s_end = ref_read(data, False)
-    lenient, l_end = ref_read(data, True)
-    for a, b in zip(strict, lenient):
-        if (a["method"], a["target"], a["body"], a["end"]) != (b["method"], b["target"], b["body"], b["end"]):
-            return ("oracle:reference-inconsistent", "the tolerant reference reader is not an extension of the strict one")
-    ref = lenient if len(lenient) >= len(strict) else strict
+BOUNDARY_SIGS = ("oracle:smuggled-request", "oracle:body-crosses-message-boundary")
+
+
+def compare(items, ref, end, nstrict):
+    """the requests the origin received against one delimitation of the client stream"""
     for j, it in enumerate(items):
-        where = "strict" if j < len(strict) else "tolerant"
+        where = "strict" if j < nstrict else "tolerant"
         # framing fields of what went upstream
         if len(it["cl"]) > 1:
             return ("oracle:forwarded-several-content-length", "request %d reached the origin with %d Content-Length fields" % (j, len(it["cl"])))
@@ -680,7 +676,6 @@ def oracle(s, obs):
         if it["cl"] and not re.fullmatch(rb"[0-9]+", it["cl"][0]):
             return ("oracle:forwarded-bad-content-length", "request %d reached the origin with Content-Length %r" % (j, it["cl"][0]))
         if j >= len(ref):
-            end = l_end if ref is lenient else s_end
             if it["complete"] or end.startswith("invalid"):
                 return ("oracle:smuggled-request",
                         "the origin received request %d (%s %s, body %r) but the client stream has only %d delimitable message(s) "
@@ -704,6 +699,52 @@ def oracle(s, obs):
         elif not r["body"].startswith(it["body"]):
             return ("oracle:body-crosses-message-boundary",
                     "request %d reached the origin with partial body %r, not a prefix of %r" % (j, it["body"][:80], r["body"][:80]))
+    return None
+
+
+def oracle(s, obs):
+    """The property on what squid did.  The client stream is delimited by a strict RFC 9112 reader and by a reader that
+    takes every tolerance RFC 9112 offers (a conservative extension of the strict one).  Every request the origin
+    received must be, in order, exactly the next message of that delimitation (same method, same target path, same
+    body bytes); its framing fields must be a single Content-Length equal to the body length or a lone
+    Transfer-Encoding: chunked; after an error answer by Squid nothing further may be forwarded or answered."""
+    p = parse_obs(obs)
+    if p is None:
+        return ("oracle:no-observation", "the exchange could not be observed: " + obs[:200])
+    items, codes, closed = p
+    data = stream_bytes(s, _state.get("oport", 80), RID0)
+    strict, s_end = ref_read(data, 0)
+    lenient, l_end = ref_read(data, 1)
+    for a, b in zip(strict, lenient):
+        if (a["method"], a["target"], a["body"], a["end"]) != (b["method"], b["target"], b["body"], b["end"]):
+            return ("oracle:reference-inconsistent", "the tolerant reference reader is not an extension of the strict one")
+    if len(lenient) < len(strict):
+        return ("oracle:reference-inconsistent", "the tolerant reference reader delimits fewer messages than the strict one")
+    v = compare(items, lenient, l_end, len(strict))
+    if v and v[0] in BOUNDARY_SIGS:
+        # name the one known deviation precisely: VT / FF read as optional white space in framing elements
+        xref, x_end = ref_read(data, 2)
+        if compare(items, xref, x_end, len(strict)) is None:
+            return ("oracle:vt-ff-as-ows-in-framing:" + v[0].split(":", 1)[1],
+                    "squid reads VT/FF next to a Content-Length / Transfer-Encoding value or in chunk-ext BWS as optional white "
+                    "space and forwards accordingly; a strict RFC 9112 reader (and one using every RFC tolerance) rejects the "
+                    "message: " + v[1])
+    if v and v[0] == "oracle:smuggled-request":
+        # second known deviation: a request line carrying the version token HTTP/0.9 (any method but GET: GET with any
+        # HTTP/0.x is always answered 400) is accepted as an HTTP/0.9 request: no field block is read, the request goes
+        # upstream without fields or body and the connection is closed, the rest of the stream is dropped
+        j = len(lenient)
+        if l_end == "invalid:HTTP-version" and len(items) == j + 1 and items[j]["complete"] and not items[j]["body"] \
+           and not items[j]["cl"] and closed and compare(items[:j], lenient, l_end, len(strict)) is None:
+            start = lenient[-1]["end"] if lenient else 0
+            line = data[start:].lstrip(b"\r\n").split(b"\n", 1)[0]
+            if re.search(rb"HTTP/0\.9[ \t\x0b\x0c\r]*$", line):
+                return ("oracle:http09-version-token-forwarded",
+                        "a request line with the version token HTTP/0.9 and a method other than GET is accepted: the request "
+                        "reaches the origin without fields and body, the following bytes are dropped with the connection; a "
+                        "strict reader rejects the line: " + v[1])
+    if v:
+        return v
     # a rejection ends the connection
     errs = [k for k, c in enumerate(codes) if c != "200"]
     if errs:
@@ -711,7 +752,6 @@ def oracle(s, obs):
             return ("oracle:answers-after-rejection", "squid answered %s: something was processed after the rejection" % " ".join(codes))
         if not closed:
             return ("oracle:open-after-rejection", "squid answered %s and kept reading the connection" % codes[-1])
-        ncomplete = len([i for i in items if i["complete"]])
         if len(items) > errs[0]:
             return ("oracle:forwarded-after-rejection", "%d requests reached the origin although squid rejected message %d" % (len(items), errs[0]))
     return None
